@@ -163,7 +163,7 @@ fn check_helpers(h: &[u8], needle: &str) -> Vec<(String, String)> {
 
 // ---- (b) cursor
 #[derive(Clone, Copy, Debug, PartialEq, Eq, Hash)]
-enum Op {
+pub enum Op {
     Next,
     Peek,
     IsEnd,
@@ -191,7 +191,7 @@ fn ops() -> Vec<Op> {
 /// R6: a Vec of labels plus an index. `free_run`: `next` past the end keeps counting (variant A)
 /// or stays at len (variant B).
 #[derive(Clone, Debug, PartialEq, Eq, Hash)]
-struct ModelCur {
+pub struct ModelCur {
     items: Vec<u32>,
     cur: u128,
     free_run: bool,
@@ -262,7 +262,7 @@ fn label_of(s: &OsStr) -> u32 {
 }
 
 #[derive(Clone)]
-struct St {
+pub struct St {
     raw: RawArgs,
     cur: clap_lex::ArgCursor,
     a: ModelCur,
@@ -428,6 +428,101 @@ fn recheck(case: &Value) -> Vec<Violation> {
     out
 }
 
+// ---- explorer self-check: the same cursor machine explored by stateright
+mod sr {
+    use super::*;
+    use stateright::{Checker, Model, Property};
+
+    #[derive(Clone, Debug, PartialEq, Eq, Hash)]
+    pub struct S {
+        items: Vec<u32>,
+        cur: usize,
+        a_cur: u128,
+        b_cur: u128,
+        a_ok: bool,
+        b_ok: bool,
+        fresh: u32,
+        inserts: u32,
+        diverged: bool,
+    }
+
+    pub struct M {
+        pub initial_items: usize,
+    }
+
+    fn to_st(s: &S) -> St {
+        let raw = RawArgs::new(s.items.iter().map(|i| i.to_string()));
+        let mut cur = raw.cursor();
+        for _ in 0..s.cur {
+            raw.next_os(&mut cur);
+        }
+        St {
+            raw,
+            cur,
+            a: ModelCur { items: s.items.clone(), cur: s.a_cur, free_run: true },
+            b: ModelCur { items: s.items.clone(), cur: s.b_cur, free_run: false },
+            a_ok: s.a_ok,
+            b_ok: s.b_ok,
+            fresh: s.fresh,
+            inserts: s.inserts,
+        }
+    }
+
+    fn cursor_value(t: &St) -> usize {
+        format!("{:?}", t.cur).chars().filter(|c| c.is_ascii_digit()).collect::<String>().parse().unwrap_or(0)
+    }
+
+    fn from_st(t: &St) -> S {
+        let items: Vec<u32> = {
+            let mut c = t.raw.cursor();
+            let mut v = vec![];
+            while let Some(x) = t.raw.next_os(&mut c) {
+                v.push(label_of(x));
+            }
+            v
+        };
+        S { items, cur: cursor_value(t), a_cur: t.a.cur, b_cur: t.b.cur, a_ok: t.a_ok, b_ok: t.b_ok, fresh: t.fresh, inserts: t.inserts, diverged: false }
+    }
+
+    impl Model for M {
+        type State = S;
+        type Action = Op;
+        fn init_states(&self) -> Vec<S> {
+            vec![from_st(&init_state(self.initial_items))]
+        }
+        fn actions(&self, s: &S, out: &mut Vec<Op>) {
+            if s.diverged {
+                return;
+            }
+            for op in ops() {
+                if matches!(op, Op::Insert(_)) && s.inserts >= 2 {
+                    continue;
+                }
+                out.push(op);
+            }
+        }
+        fn next_state(&self, s: &S, op: Op) -> Option<S> {
+            match lock_step(&to_st(s), op) {
+                Ok(t) => Some(from_st(&t)),
+                Err(_) => {
+                    let mut d = s.clone();
+                    d.diverged = true;
+                    Some(d)
+                }
+            }
+        }
+        fn properties(&self) -> Vec<Property<Self>> {
+            vec![Property::<Self>::always("implementation agrees with the list-index model", |_, s| !s.diverged)]
+        }
+    }
+
+    /// (unique states within `depth`, property held)
+    pub fn explore(initial_items: usize, depth: u32) -> (usize, bool) {
+        let checker = M { initial_items }.checker().target_max_depth(depth as usize + 1).threads(1).spawn_bfs().join();
+        (checker.unique_state_count(), checker.discoveries().is_empty())
+    }
+}
+
 fn nth_hay(mut idx: u64, len: usize) -> Vec<u8> {
     let mut v = vec![0u8; len];
     for i in (0..len).rev() {
@@ -523,6 +618,7 @@ fn main() {
     let mut tot_trans = 0u64;
     let mut overrun_states = 0u64;
     let mut maxd = 0;
+    let mut sr_checks: Vec<Value> = vec![];
     for n in 0..=3usize {
         let viol: std::cell::RefCell<Option<(usize, Op, String, String)>> = Default::default();
         let idx_of: std::cell::Cell<usize> = Default::default();
@@ -574,6 +670,17 @@ fn main() {
         if b.stats.state_capped {
             rep.cap(&format!("cursor search for {} initial items hit the state cap", n));
         }
+        // self-check of the explorer (not of clap): stateright must find the same number of
+        // distinct states within the same depth on the same machine
+        if tier == Tier::Thorough || n <= 1 {
+            let sr_depth = depth.min(5);
+            let mine = b.nodes.iter().filter(|x| x.2 <= sr_depth).count();
+            let (theirs, held) = sr::explore(n, sr_depth);
+            sr_checks.push(json!({"initial_items": n, "depth": sr_depth, "inhouse_bfs_states": mine, "stateright_states": theirs, "stateright_property_held": held}));
+            if held && viol.borrow().is_none() && mine != theirs {
+                rep.machinery(&format!("explorer self-check failed: in-house BFS found {} states within depth {}, stateright {}", mine, sr_depth, theirs));
+            }
+        }
         if let Some((at, op, c, w)) = viol.into_inner() {
             let mut tr: Vec<String> = b.trace(at).iter().map(|o| format!("{:?}", o)).collect();
             tr.push(format!("{:?}", op));
@@ -599,7 +706,7 @@ fn main() {
     rep.set(
         "cursor_search",
         json!({"states": tot_states, "transitions": tot_trans, "max_depth": maxd, "depth_bound": depth,
-               "states_with_cursor_past_len": overrun_states}),
+               "states_with_cursor_past_len": overrun_states, "explorer_self_check_vs_stateright": sr_checks}),
     );
     rep.finish(&recheck);
 }
